@@ -8,6 +8,7 @@ CONSTANTS Depth, Cap
 Fits(ids) == Len(ids) <= Cap                     \* abstract capacity (the trace judge uses Disk.tla's granule accounting)
 Cmds == [tool : {"asm"}, sw : {"bin", "cas", "dsk"}, app : BOOLEAN, named : BOOLEAN, new : {<<9>>}, srcn : {0}]
    \cup [tool : {"util"}, sw : {"bin", "cas", "dsk"}, app : BOOLEAN, named : {TRUE}, new : {<<>>, <<201>>, <<201, 202>>}, srcn : {1, 2}]
+   \cup [tool : {"util"}, sw : {"list"}, app : {FALSE}, named : {TRUE}, new : {<<>>}, srcn : {0}]
 Inits == {Absent, C("empty", FALSE, <<>>), C("cas", FALSE, <<101, 102>>), C("cas", TRUE, <<101, 102, 103>>),
           C("dsk", FALSE, <<101, 102>>), C("dsk", FALSE, [k \in 1..Cap |-> 100 + k]), C("raw", FALSE, <<101>>), C("junk", FALSE, <<>>)}
 VARIABLES fs, hist
@@ -25,6 +26,7 @@ PropInv == Len(hist) > 1 => /\ OnlyAppendModifies(LastEv.pre, LastEv.cmd, LastEv
                            /\ AppendHappens(LastEv.pre, LastEv.cmd, LastEv.post, Fits)
                            /\ CapacityRespected(LastEv.pre, LastEv.cmd, LastEv.post, Fits)
                            /\ NewPathHoldsNew(LastEv.pre, LastEv.cmd, LastEv.post)
+                           /\ ReadOnly(LastEv.pre, LastEv.cmd, LastEv.post)
 \* a stored file is never lost over a whole history (C09 over sequences): ids only ever get appended while the kind stays
 NeverLost == \A i \in 2..Len(hist) : (hist[i].pre.kind \in {"cas", "dsk"} /\ hist[i].post.kind = hist[i].pre.kind) => IsPrefix(hist[i].pre.files, hist[i].post.files)
 Export == Len(hist) = Depth + 1 =>
